@@ -650,3 +650,24 @@ def U_H_games(length=520):
         rewards += [2, 0, 0]
         games.append(dict(rewards=rewards, players=players, transition_list=tl, final_states=[W]))
     return games
+
+
+def U_J_games(length=1100):
+    """one long live chain 0 -> 1 -> ... -> win (deterministic probabilistic states, every tenth a one-action player state):
+    depth-sensitive code (recursion along the chain) behaves differently under different numberings of the same game"""
+    n = length + 2
+    L, W = n - 2, n - 1
+    players, tl, rewards = [], [], []
+    for i in range(length):
+        nxt = i + 1 if i + 1 < length else W
+        if i % 10 == 5:
+            players.append(P1 if i % 20 == 5 else P2)
+            tl.append([(ACTIONS[0], nxt)])
+        else:
+            players.append(PR)
+            tl.append([(1, nxt)])
+        rewards.append(1 if i % 100 == 0 else 0)
+    players += [PR, PR]
+    tl += [[(1, L)], [(1, W)]]
+    rewards += [0, 0]
+    return [dict(rewards=rewards, players=players, transition_list=tl, final_states=[W])]
